@@ -5,6 +5,7 @@ import (
 	"errors"
 	"fmt"
 	"net"
+	"reflect"
 	"strings"
 	"sync"
 	"time"
@@ -17,7 +18,7 @@ import (
 
 // C15: reattach reaches the same live plugin; test mode never kills the server.
 
-var c15Scenarios = []string{"basic", "second-hop", "multi", "kill-b", "kill-a-then-b", "kill-both", "frozen-kill-b", "kill-a-then-reattach", "crash-then-reattach", "nothing-listens", "pid-reused", "testmode", "testmode-kill-many", "testmode-second-hop", "testmode-late", "testmode-long"}
+var c15Scenarios = []string{"basic", "second-hop", "multi", "kill-b", "kill-a-then-b", "kill-both", "frozen-kill-b", "kill-a-then-reattach", "crash-then-reattach", "nothing-listens", "pid-reused", "dies-before-connect", "connect-fails-once", "testmode", "testmode-kill-many", "testmode-second-hop", "testmode-late", "testmode-long"}
 
 func init() {
 	Register(&Prop{ID: "C15",
@@ -308,6 +309,76 @@ func runC15(r *h.Run) {
 			r.Violate("killed-on-failed-reattach", ctx, "a failed reattach terminated the plugin")
 		}
 		bystanderAlive(scen)
+	case "dies-before-connect", "connect-fails-once":
+		// the reattach itself succeeds; the first connect through the reattached
+		// client fails - the plugin died in between, or its socket could not be
+		// reached just then - and the same client is used again
+		b := reattachClient(r, proto, rc, "B")
+		if o := r.DoNoHang("B.Start", 60*time.Second, ctx, func() (any, error) { return b.Start() }); o.Err != nil || o.Hung {
+			if !o.Hung && quiet() {
+				r.Violate("reattach-failed", ctx+" client=B start", fmt.Sprint(o.Err))
+			}
+			break
+		}
+		sock := ""
+		if ua, ok := rc.Addr.(*net.UnixAddr); ok {
+			sock = ua.Name
+		}
+		if scen == "dies-before-connect" {
+			plug.Crash(137, "dies between reattach and connect")
+			w.CountFault("proc.crash")
+			time.Sleep(50 * time.Millisecond)
+		} else if sock != "" {
+			w.Rename(sock, sock+".away")
+			w.CountFault("fs.socket-moved")
+		}
+		connect := func(tag string) (any, error, bool) {
+			o := r.DoNoHang("B.Client"+tag, 60*time.Second, ctx, func() (any, error) {
+				cp, err := b.Client()
+				if err != nil {
+					return nil, err
+				}
+				if cp == nil || reflect.ValueOf(cp).IsNil() {
+					return nil, fmt.Errorf("C15-NIL-CLIENT")
+				}
+				return cp, cp.Ping()
+			})
+			return o.Val, o.Err, o.Hung
+		}
+		_, err1, hung := connect("#1")
+		if hung {
+			break
+		}
+		if err1 == nil && scen == "dies-before-connect" {
+			r.Violate("connected-to-dead-plugin", ctx+" client=B", "Client()+Ping succeeded although the plugin had died")
+		}
+		if scen == "connect-fails-once" && sock != "" {
+			w.Rename(sock+".away", sock)
+		}
+		_, err2, hung := connect("#2")
+		if hung {
+			break
+		}
+		if err2 != nil && strings.Contains(err2.Error(), "C15-NIL-CLIENT") {
+			r.Violate("nil-client-without-error", ctx+" client=B second-connect", "after a failed connect the next Client() returned a nil client and no error")
+		}
+		if scen == "dies-before-connect" && err2 == nil {
+			r.Violate("connected-to-dead-plugin", ctx+" client=B second-connect", "the second Client()+Ping succeeded although the plugin is dead")
+		}
+		if scen == "connect-fails-once" && proto == "netrpc" && err1 != nil && err2 != nil && quiet() {
+			r.Violate("reattach-failed", ctx+" client=B second-connect", fmt.Sprintf("the socket is reachable again but the reattached client still cannot connect: %v", err2))
+		}
+		if scen == "connect-fails-once" && err2 == nil {
+			checkSees(b, "B")
+		}
+		kill(b, "B")
+		time.Sleep(2 * time.Second)
+		if plug.Alive() {
+			r.Violate("kill-did-not-terminate", ctx+" client=B", "Kill on the reattached client left the plugin running")
+		}
+		if scen == "dies-before-connect" {
+			expectNotFound(reattachClient(r, proto, rc, "C"), "C")
+		}
 	case "pid-reused":
 		plug.Crash(137, "crash")
 		time.Sleep(2 * time.Second)
